@@ -293,3 +293,31 @@ KDH(grad_hist) {
     kcall(k);
     KFN(k, grad_hist)(p, s, rows, cols, hist);
 }
+
+/* ---- noise-model FFT (float).  fft: n*n real -> 2*n*n (re,im interleaved); ifft the reverse; temp
+ * is scratch.  Inputs in [0,1) (denoising works on normalised blocks) and scaled spectra. */
+KDH(fft) {
+    int    n = P(0), inv = P(1);
+    size_t in_n = (size_t)n * (size_t)n * (inv ? 2 : 1), out_n = (size_t)n * (size_t)n * (inv ? 1 : 2);
+    float *in = (float *)kb(k, in_n, 4, 32), *tmp = (float *)kb(k, 2 * (size_t)n * (size_t)n, 4, 32), *out = (float *)kb(k, out_n, 4, 32);
+    int32_t *raw = (int32_t *)kb(k, in_n, 4, 32);
+    kfill(k, raw, in_n, 4, 0, (1 << 20) - 1);
+    for (size_t i = 0; i < in_n; i++) in[i] = (float)raw[i] / (float)(1 << 20) * (inv ? (float)(n * n) : 1.0f) - (inv ? (float)(n * n) / 2 : 0.0f);
+    ka(k, "n", n), ka(k, "inverse", inv);
+    kcall(k);
+    KFN(k, fft)(in, tmp, out);
+    kdontcare(k, tmp, 2 * (size_t)n * (size_t)n * 4);
+    /* -0.0f and +0.0f are the same number: canonicalise before the byte-wise comparison */
+    for (size_t i = 0; i < out_n; i++)
+        if (out[i] == 0.0f) out[i] = 0.0f;
+}
+
+/* corner-match cross correlation: 13x13 windows centred on (x, y) inside two 8-bit pictures */
+KDH(cross_corr) {
+    int      s1, s2, w = 13 + kr_range(k, 0, 20), h = 13 + kr_range(k, 0, 20);
+    uint8_t *a = (uint8_t *)pic(k, w, h, 1, 255, &s1, 0), *b = (uint8_t *)pic(k, w, h, 1, 255, &s2, 0);
+    int      x1 = kr_range(k, 6, w - 7), y1 = kr_range(k, 6, h - 7), x2 = kr_range(k, 6, w - 7), y2 = kr_range(k, 6, h - 7);
+    ka(k, "x1", x1), ka(k, "y1", y1), ka(k, "x2", x2), ka(k, "y2", y2), ka(k, "stride1", s1), ka(k, "stride2", s2);
+    kcall(k);
+    kret_d(k, KFN(k, cross_corr)(a, s1, x1, y1, b, s2, x2, y2));
+}
